@@ -1,5 +1,5 @@
 CONSTANTS
-  NCell = 2
+  NCell = 3
   NBin = 2
   MaxCat = 1
   MaxEv = 0
